@@ -338,14 +338,29 @@ pub fn c30_reenter_case(src: &mut Src, obs: &mut Obs) -> CaseResult {
     } else {
         None
     };
+    // ... or puts an object manager above the object while the calls are served
+    let late_manager = if !managed && src.chance(100) {
+        let c = conn.clone();
+        Some(sched.spawn("late-manager", async move {
+            let _ = c.object_server().at("/", zbus::fdo::ObjectManager).await;
+        }))
+    } else {
+        None
+    };
     let oc = sched.run(&mut || sch.next(), 600_000, &mut |s| {
         peer.pump();
-        calls.iter().all(|c| peer.out.iter().any(|r| r.get(msg::F_REPLY_SERIAL) == Some(&RVal::U(c.serial)))) && lookup.map(|l| s.done(l)).unwrap_or(true)
+        calls.iter().all(|c| peer.out.iter().any(|r| r.get(msg::F_REPLY_SERIAL) == Some(&RVal::U(c.serial)))) && lookup.map(|l| s.done(l)).unwrap_or(true) && late_manager.map(|l| s.done(l)).unwrap_or(true)
     });
+    if late_manager.is_some() {
+        kinds.push("(object manager added from outside)");
+    }
     if lookup.is_some() {
         kinds.push("(interface() from outside)");
     }
     let mut answered: Vec<bool> = calls.iter().map(|c| peer.out.iter().any(|r| r.get(msg::F_REPLY_SERIAL) == Some(&RVal::U(c.serial)))).collect();
+    if let Some(l) = late_manager {
+        answered.push(sched.done(l));
+    }
     if let Some(l) = lookup {
         answered.push(sched.done(l));
     }
@@ -364,7 +379,7 @@ pub fn c30_reenter_case(src: &mut Src, obs: &mut Obs) -> CaseResult {
         }
     }
     obs.label(if seq { "spawn=false" } else { "spawn=true" });
-    for k in ["Introspect", "AddMutLater", "GetManagedObjects", "(interface() from outside)"] {
+    for k in ["Introspect", "AddMutLater", "GetManagedObjects", "(interface() from outside)", "(object manager added from outside)"] {
         if kinds.contains(&k) {
             obs.label(k);
         }
